@@ -167,6 +167,23 @@ Example C11_summary_concrete :
   basic_sel [3; 1; 2]%Z = (1, 2, 3)%Z /\ basic_sel [4; 1; 3; 2]%Z = (1, 2, 4)%Z.
 Proof. split; vm_compute; reflexivity. Qed.
 
+(* ---- the correspondence check evaluates the SAME generic model at exact rationals (numQ, normalised);
+   mapped to the reals with Q2R this evaluation is the real-number model of the theorems above ---- *)
+From Coq Require Import QArith Qreals.
+From MiniMcmc Require Import Proofs.Q2R.
+
+Theorem C11_q_evaluation_is_real_model : forall (hs : list (list Q)) (n : nat),
+  (2 <= length hs)%nat -> (1 <= n)%nat -> (forall h, In h hs -> length h = n) ->
+  Q2R (fst (withinvar numQ hs)) = fst (withinvar numR (map (map Q2R) hs)) /\
+  Q2R (snd (withinvar numQ hs)) = snd (withinvar numR (map (map Q2R) hs)).
+Proof. exact q2r_withinvar. Qed.
+
+Theorem C11_q_split_rhat2_is_real : forall (cs : list (list Q)) (n : nat),
+  cs <> [] -> (forall c, In c cs -> length c = n) -> (1 <= n / 2)%nat ->
+  ~ (fst (withinvar numQ (split_halves numQ cs)) == 0)%Q ->
+  Q2R (split_rhat2 numQ cs) = split_rhat2 numR (map (map Q2R) cs).
+Proof. exact q2r_split_rhat2. Qed.
+
 Print Assumptions C11_formula.
 Print Assumptions C11_formula_var_n.
 Print Assumptions C11_formula_ratio.
@@ -182,3 +199,5 @@ Print Assumptions C11_unbounded_sqrt.
 Print Assumptions C11_sort_desc.
 Print Assumptions C11_summary.
 Print Assumptions C11_key_round_trip.
+Print Assumptions C11_q_evaluation_is_real_model.
+Print Assumptions C11_q_split_rhat2_is_real.
